@@ -175,7 +175,7 @@ func (m *runtimeContextManager) requireCPU(cpuAmount uint64) {
 	if m.stopLevel&HardStop != 0 {
 		m.KillContext()
 	}
-	cpuUsed := m.usedResources.Cpu + cpuAmount
+	cpuUsed := addResource(m.usedResources.Cpu, cpuAmount)
 	if atLimit(cpuUsed, m.hardLimits.Cpu) {
 		m.TerminateContext("CPU limit of %d exceeded", m.hardLimits.Cpu)
 	}
@@ -185,6 +185,17 @@ func (m *runtimeContextManager) requireCPU(cpuAmount uint64) {
 	}
 	m.usedResources.Cpu = cpuUsed
 	verifRequired(m, 0, cpuAmount)
+}
+
+// addResource adds an amount to a resource counter.  The sum saturates instead
+// of wrapping around: a huge request must look huge to the limit check, not
+// small.
+func addResource(used, amount uint64) uint64 {
+	sum := used + amount
+	if sum < used {
+		return ^uint64(0)
+	}
+	return sum
 }
 
 func (m *runtimeContextManager) UnusedCPU() uint64 {
@@ -204,7 +215,7 @@ func (m *runtimeContextManager) requireMem(memAmount uint64) {
 	if m.stopLevel&HardStop != 0 {
 		m.KillContext()
 	}
-	memUsed := m.usedResources.Memory + memAmount
+	memUsed := addResource(m.usedResources.Memory, memAmount)
 	if atLimit(memUsed, m.hardLimits.Memory) {
 		m.TerminateContext("memory limit of %d exceeded", m.hardLimits.Memory)
 	}
